@@ -89,6 +89,13 @@ pub fn alphabet(n: usize, c: &AlphaCfg) -> Vec<Dev> {
             true
         }));
         if c.kinds {
+            devs.push(dev(format!("v{}.ident=ÉtéÑu", i), &[&format!("ident{}", i)], move |s| {
+                if i >= s.variants.len() || s.variants.iter().any(|v| v.ident == "ÉtéÑu") {
+                    return false;
+                }
+                s.variants[i].ident = "ÉtéÑu".into();
+                true
+            }));
             devs.push(dev(format!("v{}.ident=r#try", i), &[&format!("ident{}", i)], move |s| {
                 if i >= s.variants.len() || s.variants.iter().any(|v| v.ident == "r#try") {
                     return false;
